@@ -95,7 +95,7 @@ def errOf : Except DeErr Val → Option DeErr
   | .error e => some e
   | _ => none
 
-/-- F-xml-6 (`xml-text-outside-root`, FIXED by 4f52948): `junk<Key>k</Key>junk` is refused with `InvalidContent`
+/-- F-xml-6 (`xml-text-outside-root`, FIXED by d51737b): `junk<Key>k</Key>junk` is refused with `InvalidContent`
 (before: accepted as `k`; `expect_start` / `expect_eof` skipped every text event) … -/
 theorem text_outside_root_refused :
     errOf (decodeDoc X0 (.named key) .str (deEvents (tokenize docJunk))) = some .invalidContent := by decide
@@ -121,7 +121,7 @@ theorem whitespace_outside_root_accepted :
 theorem text_outside_root_illformed :
     (match XmlSpec.parse docJunk with | .error (.illFormed _) => true | _ => false) = true := by decide
 
-/-! F-xml-7 (`xml-ts-format-panic`, FIXED by 62f4e8c): the timestamp codec is a parameter of this model (`Ext.tsParse`);
+/-! F-xml-7 (`xml-ts-format-panic`, FIXED by b7ef08a): the timestamp codec is a parameter of this model (`Ext.tsParse`);
 the regression facts — `9999-12-31T23:59:59-01:00` is refused by `Timestamp::parse`, and every accepted timestamp can
 be written — are `C14_regression_year10000_*` in `Findings/C14.lean` and `C14_ts_parse_format_total` in `Props/C14.lean`. -/
 
